@@ -35,9 +35,9 @@ Lemma brun_inst_ok init ops :
 Proof.
   intros Hinit Hwf Hsz. unfold brun_inst, spec_ok_buf_inst.
   destruct (balloc buffer_init_cap alloc_ok_inst init) as [b|] eqn:Eb; [|exact I].
-  pose proof (binv_alloc buffer_init_cap alloc_ok_inst buffer_init_cap_ok alloc_inst_small alloc_inst_bounded
+  pose proof (binv_alloc buffer_init_cap alloc_ok_inst buffer_init_cap_ok alloc_inst_bounded
                 init b Hinit Eb) as [Hi Hd].
-  pose proof (brun_refines buffer_init_cap alloc_ok_inst buffer_init_cap_ok alloc_inst_small alloc_inst_bounded
+  pose proof (brun_refines buffer_init_cap alloc_ok_inst buffer_init_cap_ok alloc_inst_bounded alloc_inst_small
                 ops b Hi Hwf Hsz) as H.
   destruct (brun buffer_init_cap alloc_ok_inst b ops) as [b' tr]. cbn [snd].
   destruct H as (_ & Hok & _). rewrite Hd in Hok. exact Hok.
